@@ -16,16 +16,28 @@ C13  one clf.exchange() per (driver x target kind x host command index k x statu
      for the response) at any host command of exchange(), sense() or listen() -> IOError only;
      status 01h of the RF exchange command as initiator -> TimeoutError and every other error code of it ->
      TransmissionError (never TimeoutError / BrokenLinkError / IOError; InDataExchange: the six bit error code); as
-     target every error code of TgGetInitiatorCommand / TgResponseToInitiator -> TransmissionError, except 0Ah /
-     29h / 31h which the driver documents as the remote side having left (BrokenLinkError exactly, at both host
-     commands, for all seven listen-capable drivers: table RELEASED_EXACT) and 01h
+     target every error code of TgGetInitiatorCommand / TgResponseToInitiator -> TransmissionError, except 31h on the
+     RC-S956, which its manual defines as "Initiator RF-OFF state detected" (BrokenLinkError exactly, at both host
+     commands: table RELEASED_EXACT), 0Ah / 29h / 31h elsewhere (any CommunicationError subclass: the manuals do not
+     make them field loss) and 01h
      (TimeoutError or TransmissionError) - asked for all 256 values because status octets and OS errno values are
      different number spaces (6Eh = ETIMEDOUT, 05h = EIO, 13h = ENODEV); the mirror image on the host link: a
      transport exception after the ACK whose errno equals a special-cased status code (1, 10, 41, 49) -> IOError;
      chip silent after
-     the ACK of the RF exchange command -> TimeoutError (exchange() docstring); status 29h (released by the
-     initiator; RC-S956 also 31h RF-off) of TgGetInitiatorCommand -> BrokenLinkError; CIU RFOffIRq while a
-     FeliCa listen target -> BrokenLinkError.
+     the ACK of the RF exchange command -> TimeoutError (exchange() docstring); chip silent after the ACK of a host
+     command that does not wait for the RF side (ReadRegister, WriteRegister, RFConfiguration, TgResponseToInitiator):
+     observed and counted only (nfc.clf.TimeoutError there is inside the letter of the statement); RC-S956 status 31h (RF-off) of TgGetInitiatorCommand ->
+     BrokenLinkError; CIU RFOffIRq while a FeliCa listen target -> BrokenLinkError.
+     Data fidelity: whenever exchange() returns octets - in the reference run, next to any injected action (missing or
+     doubled ACK, surplus octets, a cut pseudo-APDU that is still a valid envelope ...) and in the exchange after it -
+     they are what the other side sent according to the valid answer the simulated chip really handed over for the RF
+     command (CRC_A octets removed where the CIU left them in), or, where the data come through the CIU FIFO, equal to
+     the reference run if every host command got the same valid answer as there.
+     Time-out argument: target role exchange() with time-out 0 (nfc.dep: send the last response, do not wait) and None
+     (default of Device.send_rsp_recv_cmd), with response data and receive-only, each followed by a regular exchange.
+     Two faults in a row: chip silent after the ACK of any host command and the cancel ACK the driver then writes
+     fails too; an error status / silence at the RF command and a hard transport fault at the first host command of
+     the next exchange (-> IOError).
      Concrete type clause ("driver-internal exception types never escape"): the type of whatever exchange() raises
      is itself nfc.clf.CommunicationError / TimeoutError / TransmissionError / ProtocolError / BrokenLinkError /
      UnsupportedTargetError or a builtin OSError class; pn53x.Chipset.Error derives from TransmissionError since
@@ -42,10 +54,20 @@ C13  one clf.exchange() per (driver x target kind x host command index k x statu
      octets the regular response has behind the status; status 00h must come back as exactly the reference
      data, an error status (the whole byte; for InDataExchange/TgGetData the six bit error code, bits 7/6 being
      the NAD/MI flags) must never come back as received data.
-C14  (a) every frame a Chipset.command() writes is valid under vf.ref.frames and carries exactly the payload
+C14  (a) every frame a Chipset.command() writes is valid under vf.ref.frames and carries exactly the payload (payloads
+         that contain the start code / an ACK / a NACK included; data field at most 265 octets, PN531 255), and so is
+         every frame written while the driver is operated: init(), sense()/listen() into every supported kind, exchange,
+         an exchange in which the chip falls silent (cancel ACK), close() - ACK frames and the ACR122U reader commands
+         (LED/buzzer, PICC parameter, version: length byte checked) included (run_operation)
      (b) a mutated response is returned as data only if vf.ref.frames calls it a valid response to that
          command with that data; everything else must raise IOError (Chipset.Error only for a checksum-valid
-         frame with TFI 7Fh)
+         frame with TFI 7Fh).  Besides bit flips, cuts, extensions, sum preserving pairs and random substitutions:
+         every structural octet (preamble, start code, LEN/LCS resp. FF FF LENM LENL LCS, TFI, response code, DCS,
+         postamble; ACR122U: bMessageType, dwLength, D5, response code, SW1 SW2) takes each of the 255 other values,
+         once as it is and once with the covering checksum recomputed, so that exactly one clause of the validator fails
+         (counters *_mut_only_<clause>_rejected); response codes of ten commands; extended frames of few octets; the
+         read-only path Chipset.command(code, None, t); an ACK and the response handed over by the transport in one
+         piece (refused, or the response part judged like any response)
      (c) nfc.clf.device CRC_A/CRC_B helpers equal vf.ref.crc; single-bit corruptions are rejected; the driver
          side CRC checks (Type 2 Tag READ through InCommunicateThru, Type 1 Tag READ8 through the CIU) never
          return a frame with a wrong CRC as data; the same for Type 2 Tag platform targets of every SEL_RES value
@@ -72,10 +94,15 @@ ASSUMPTIONS = [
     "CCID header bytes bSlot/bSeq/bStatus/bError/bChainParameter of an ACR122U answer are not judged (no checksum protects them and the property names framing, identifier, response code and status word only)",
     "a host-link fault changes what the host reads or makes the write fail; the chip still executes the command (not when the write fails)",
     "a transport exception while the command frame is written or the ACK frame awaited (any errno, ETIMEDOUT included), and a transport exception other than ETIMEDOUT while the response is awaited, is a host-link failure and must be reported as IOError; only errors nfc/clf/transport.py can raise at that point are injected (USB read ETIMEDOUT/EIO/ENODEV, USB write EIO/ENODEV, serial additionally IOError without errno from pyserial), plus - response phase only - IOError with errno 1/10/41/49, which today's transport.py does not raise: they stand for 'a transport exception with some other errno' and are chosen because the numbers coincide with chipset status codes the drivers special-case",
-    "C13 status class clause: the status octet of an RF command and the errno of a transport exception are different number spaces; error code 01h of InCommunicateThru/InDataExchange is the chip's RF time-out, no other code is; no error code of an initiator command means that the field was lost; as target 0Ah/29h/31h are what pn53x.Device.send_rsp_recv_cmd documents as the remote side having left (RF field not activated in time / released by the initiator / initiator RF off): field loss, reported as BrokenLinkError whichever of the two host commands of the exchange the chip reports it at",
+    "C13 status class clause: the status octet of an RF command and the errno of a transport exception are different number spaces; error code 01h of InCommunicateThru/InDataExchange is the chip's RF time-out, no other code is; no error code of an initiator command means that the field was lost; as target only status 31h of the RC-S956 (manual: 'Initiator RF-OFF state detected while operating as Target') is unambiguously field loss -> BrokenLinkError whichever of the two host commands of the exchange the chip reports it at; 0Ah (RF field not activated in time), 29h (released by the initiator), 2Fh (RC-S956: already deselected by the initiator) and 31h on the chips whose manuals do not define it may be reported as any CommunicationError subclass, and so may 0Ah and 2Bh (Type B card has disappeared) as initiator",
     "C13 concrete type clause: the documented public exception classes are nfc.clf.CommunicationError, TimeoutError, TransmissionError, ProtocolError, BrokenLinkError, UnsupportedTargetError and the builtin IOError/OSError classes (including the errno subclasses Python itself selects); a class defined in a driver module is driver-internal even if it derives from one of these",
     "the CIU appends/verifies CRC_A for InCommunicateThru at 106 kbps Type A exactly when CIU_TxMode.TxCRCEn / CIU_RxMode.RxCRCEn (bit 7) are set, reports a failed check as status 02h, and hands the received octets over unchanged when RxCRCEn is clear",
-    "C13 finer clauses: PN53x status 01h and a silent chip after ACK mean time-out; status 29h (RC-S956 also 31h) of TgGetInitiatorCommand and CIU_DivIRq.RFOffIRq mean the remote side left",
+    "C13 finer clauses: PN53x status 01h and a silent chip after the ACK of a command that waits for the other side (InCommunicateThru, InDataExchange, TgGetInitiatorCommand) mean time-out; RC-S956 status 31h and CIU_DivIRq.RFOffIRq mean the remote side left",
+    "C13 silent chip observation: ReadRegister, WriteRegister, RFConfiguration and TgResponseToInitiator are answered by the chip within its own processing time, whatever the other side does; how a chip that acknowledges such a command and never answers it is reported (IOError or nfc.clf.TimeoutError) is recorded, not judged: both are inside the letter of the statement",
+    "C13 time-out argument: 0 (nfc.dep sends DSL_RES / RLS_RES that way: do not wait) and None (default of nfc.clf.device.Device.send_rsp_recv_cmd, implemented as 'no limit' by the FeliCa listen path, rcs380 and udp) are legal time-out arguments of a target role exchange(); None as return value is accepted there",
+    "C13 data fidelity: a valid answer of InCommunicateThru / InDataExchange / TgGetInitiatorCommand with a success status carries behind the status octet exactly the octets received from the other side (at 106 kbps Type A with CIU_RxMode.RxCRCEn clear followed by the two CRC_A octets when three or more octets arrived); the simulated field is deterministic, so identical chip answers mean identical data",
+    "C14 frame limits: the data field TFI..PDn of a host command has at most 265 octets on PN532/PN533/RC-S956 (user manuals: 264 + TFI) and 255 on the PN531 (normal frames only); the chip may use the extended frame format for a response of any length; an ACK frame and the response frame arriving in one transfer may be refused as a whole or taken apart, but the response part is validated like any response",
+    "C14 ACR122U reader commands: FF 00 48 00 00 (version), FF 00 51 P2 00 (PICC parameter), FF 00 40 P2 04 + 4 octets (LED / buzzer): the length byte must agree with the octets that follow (ACR122U API v2.0x)",
     "C13 RF status clause: the status byte of InCommunicateThru, TgGetInitiatorCommand, TgResponseToInitiator and TgSetData is an error code as a whole (00h = success); only InDataExchange and TgGetData carry the NAD (bit 7) and MI (bit 6) flags in front of a six bit error code (PN532 UM 7.1); with an error status the octets behind the status byte are chip buffer content, not data received from the other side",
     "C14 on-air clause: a Type 1 Tag command frame is the command code with its operands and UID echo (7 octets; 14 for READ8/WRITE-E8/WRITE-NE8) followed by the CRC_B of exactly those octets; no tag answers anything else; the command the caller wants on air is what the buffer held when the caller built it (before the first exchange() with that object)",
 ]
@@ -109,10 +136,16 @@ RULE_C13 = ("cell = (driver in pn531/pn532/pn533/rcs956/acr122/arygonA/arygonB/p
             "bare + status values followed by the regular response's octets (quick: flag-bit-only 40h/80h/C0h, single "
             "bits, documented error codes, field borders; thorough: all 255): 00h -> exactly the reference data, error "
             "status -> never data; status class clause: for each of these 256 values which documented error it becomes "
-            "(initiator: error code 01h -> TimeoutError, any other -> TransmissionError; target: 0Ah/29h/31h -> "
-            "BrokenLinkError exactly at TgResponseToInitiator (first host command of an exchange that carries response data) "
-            "and at TgGetInitiatorCommand for pn531/pn532/pn533/rcs956/arygonA/arygonB/pn532rt in listen kinds tt2/tt4/DEP "
-            "106/424, 01h -> TimeoutError or TransmissionError, any other -> TransmissionError), "
+            "(initiator: error code 01h -> TimeoutError, any other -> TransmissionError; target: RC-S956 31h (RF-off) -> "
+            "BrokenLinkError exactly at TgResponseToInitiator and TgGetInitiatorCommand, 0Ah/29h/31h elsewhere -> any "
+            "CommunicationError subclass, 01h -> TimeoutError or TransmissionError, any other -> TransmissionError), "
+            "chip silent after the ACK at every host command: RF command -> TimeoutError, ReadRegister/WriteRegister/"
+            "RFConfiguration/TgResponseToInitiator -> outcome observed, not judged beyond the coarse clause; data fidelity: every outcome that is data (reference, under "
+            "any action, in the follow-up exchange) compared with what the chip handed over for the RF command / with the "
+            "reference when all answers were the same; target role time-out argument 0 and None x with data / receive-only "
+            "+ a regular exchange after it; two-fault schedules (silence at host command k + failing cancel-ACK write for "
+            "every write fault; status 01h/13h/0Ah/29h or silence at the RF command + every hard transport fault at the "
+            "first host command of the next exchange); "
             "concrete type clause: the exception type is one of the documented public classes itself (not a driver-internal "
             "subclass of one), for every action at every host command, "
             "and transport exceptions after the ACK with errno 1/10/41/49 (numerically special-cased status codes) -> IOError; "
@@ -123,9 +156,16 @@ RULE_C13 = ("cell = (driver in pn531/pn532/pn533/rcs956/acr122/arygonA/arygonB/p
             "for one kind per driver code path, the others and later occurrences of a command code within one "
             "sense()/listen() get the contents without status/count octets) and of sense()/listen(): coarse clause")
 RULE_C14 = ("command side: every command code of each chipset table x payload lengths (quick: 0..6, 250..270, max-2..max, "
-            "random; thorough: every length) x random contents, frame validated and compared with the payload; response "
-            "side: valid responses of many lengths x every single-bit flip, every truncation, extensions, sum-preserving "
-            "adjacent byte pairs, random 1-4 byte substitutions, ACK mutations; CRC: all messages <= 2 bytes (3 thorough) + "
+            "random; thorough: every length) x random contents (one in four with a start code / ACK / NACK pattern inside), "
+            "frame validated (data field <= 265, PN531 255) and compared with the payload; operation: init, sense/listen "
+            "into every supported kind, exchange, exchange with a silent chip (cancel ACK), exchange, close - every frame "
+            "and ACR122U reader command written is validated; response "
+            "side: valid responses of many lengths (InCommunicateThru, ReadRegister; short ones for eight more response "
+            "codes) x every single-bit flip, every truncation, extensions, missing / doubled leading octets, sum-preserving "
+            "adjacent byte pairs, random 1-4 byte substitutions, ACK mutations; every structural octet of a normal and an "
+            "extended frame (ACR122U: of the CCID header and the pseudo-APDU) x all 255 other values, bare and with LCS / "
+            "DCS recomputed (exactly one validator clause fails); the same compensated sweep and all other classes on the "
+            "read-only path command(code, None, t); ACK + response in one transfer; CRC: all messages <= 2 bytes (3 thorough) + "
             "random, all single-bit corruptions, driver-side T2T/T1T CRC checks; Type 2 Tag platform targets found by the "
             "real sense() for all 64 SEL_RES values with (SEL_RES & 60h) == 0 and six ISO-DEP/NFC-DEP ones (thorough: all "
             "256) x intact / bit-flipped (all bits for 00h and 8 named values, 20 sampled otherwise) / substituted on-air "
@@ -162,10 +202,23 @@ REQUIRED_C13 = (["%s_c13_exchanges" % d for d in DRIVERS] + ["%s_c13_cells" % d 
                                                                   "TgResponseToInitiator")] +
                 # field loss as BrokenLinkError exactly, at both host commands of a target role exchange and in every
                 # listen kind that uses them; concrete type of whatever exchange() raised
-                ["%s_c13_released_status_exact_checked" % d for d in FRAME_DRIVERS] +
+                ["rcs956_c13_released_status_exact_checked"] +
+                ["%s_c13_released_status_tolerated_checked" % d for d in FRAME_DRIVERS] +
                 ["pn53x_c13_released_status_exact_%s" % c for c in ("TgGetInitiatorCommand", "TgResponseToInitiator")] +
                 ["pn53x_c13_released_status_exact_%s_%s" % (c, k) for c in ("TgGetInitiatorCommand", "TgResponseToInitiator")
-                 for k in ("l_tt2", "l_tt4", "l_dep106", "l_dep424")] +
+                 for k in ("l_tt2", "l_dep106", "l_dep424")] +
+                # data fidelity: whatever exchange() returns as data is what the other side sent, also next to a fault
+                ["%s_c13_data_fidelity_under_fault_checked" % d for d in DRIVERS] +
+                ["%s_c13_data_fidelity_by_rf_answer" % d for d in DRIVERS] +
+                ["%s_c13_data_fidelity_by_identical_answers" % d for d in FRAME_DRIVERS if "l-tt3" in SUPPORT[d]] +
+                # a chip that falls silent at a host command that does not wait for RF; time-out argument 0 / None as
+                # target; two faults in a row; extended command frames inside exchange()
+                ["%s_c13_silent_chip_observed" % d for d in DRIVERS] +
+                ["%s_c13_silent_chip_as_target_observed" % d for d in FRAME_DRIVERS] +
+                ["%s_c13_timeout_%s_checked" % (d, c) for d in FRAME_DRIVERS for c in ("zero", "none", "recv_only", "followup")] +
+                ["%s_c13_twofault_cancel_write_checked" % d for d in FRAME_DRIVERS] +
+                ["%s_c13_twofault_next_exchange_checked" % d for d in DRIVERS] +
+                ["%s_c13_frames_extended" % d for d in DRIVERS if VARIANT[d] != "pn531" and d != "acr122"] +
                 ["%s_c13_concrete_type_checked" % d for d in DRIVERS] +
                 ["%s_c13_concrete_type_tgt_checked" % d for d in FRAME_DRIVERS] +
                 ["%s_c13_concrete_type_at_response_checked" % d for d in FRAME_DRIVERS] +
@@ -178,6 +231,10 @@ REQUIRED_C13 = (["%s_c13_exchanges" % d for d in DRIVERS] + ["%s_c13_cells" % d 
                                                                      "misordered_sw9000", "misordered_sw_error",
                                                                      "misordered_no_sw", "valid_envelope")
                  for st in ("exchange", "sense")])
+ISOLATED_FRAME = ["preamble", "startcode", "lcs", "len_mismatch", "tfi", "code", "dcs", "postamble"]
+ISOLATED_CCID = ["ccid_type", "ccid_dwLength", "tfi", "code", "sw"]
+EXT_DRIVERS = [d for d in DRIVERS if VARIANT[d] != "pn531" and d != "acr122"]      # extended frames exist on the link
+CIU_T1T_DRIVERS = [d for d in DRIVERS if "t1t-read8" in SUPPORT[d] and d != "rcs956"]
 REQUIRED_C14 = (["%s_frames_validated" % d for d in DRIVERS] + ["%s_responses_mutated" % d for d in DRIVERS] +
                 ["%s_t2t_crc_cases" % d for d in DRIVERS] + ["pn53x_crc_cases", "pn53x_crc_bitflips", "pn53x_sim_selftest_frames"] +
                 ["%s_t2t_selres_tt2_nonzero_cells" % d for d in DRIVERS] +
@@ -185,7 +242,27 @@ REQUIRED_C14 = (["%s_frames_validated" % d for d in DRIVERS] + ["%s_responses_mu
                 ["%s_t2t_selres_iso_or_dep_crc_cases" % d for d in DRIVERS] +
                 ["%s_retx_same_buffer_frames" % d for d in DRIVERS] +
                 ["%s_retx_same_buffer_sw_crc_b_frames" % d for d in DRIVERS if "t1t-read8" in SUPPORT[d]] +
-                ["pn53x_tt1_retry_loop_retransmissions"])
+                ["pn53x_tt1_retry_loop_retransmissions"] +
+                # both frame formats on both sides, every class of mutation, the Type 1 Tag software CRC_B path
+                ["%s_frames_extended" % d for d in EXT_DRIVERS] + ["%s_responses_extended" % d for d in EXT_DRIVERS] +
+                ["%s_responses_extended_mutated" % d for d in EXT_DRIVERS] +
+                ["%s_frames_payload_with_start_code" % d for d in DRIVERS] +
+                ["%s_mut_%s" % (d, c) for d in DRIVERS for c in ("bitflip", "truncate", "extend", "prepend", "behead",
+                                                                 "pair_sum", "substitute", "struct_bare")] +
+                ["%s_mut_struct_comp" % d for d in FRAME_DRIVERS] + ["%s_ack_mutated" % d for d in FRAME_DRIVERS] +
+                ["%s_t1t_crc_cases" % d for d in CIU_T1T_DRIVERS] +
+                # a response that breaks exactly one clause of the validator is refused, clause by clause
+                ["%s_mut_only_%s_rejected" % (d, c) for d in FRAME_DRIVERS for c in ISOLATED_FRAME] +
+                ["acr122_mut_only_%s_rejected" % c for c in ISOLATED_CCID] +
+                ["%s_struct_sweep_extended_bases" % d for d in EXT_DRIVERS] +
+                ["%s_mut_other_response_codes" % d for d in DRIVERS] +
+                ["%s_readonly_bases" % d for d in FRAME_DRIVERS] + ["%s_mut_readonly_struct_comp" % d for d in FRAME_DRIVERS] +
+                ["%s_mut_glued_valid" % d for d in FRAME_DRIVERS] + ["%s_mut_glued_bitflip" % d for d in FRAME_DRIVERS] +
+                # frames written while the driver is operated: ACK (cancel) frames, reader commands of the ACR122U
+                ["%s_op_frames_validated" % d for d in DRIVERS] + ["%s_op_acks_validated" % d for d in DRIVERS] +
+                ["%s_op_cancel_acks" % d for d in FRAME_DRIVERS] + ["%s_sim_accepted_ack" % d for d in FRAME_DRIVERS] +
+                ["%s_op_frames_extended" % d for d in EXT_DRIVERS] +
+                ["acr122_op_reader_apdu_%s_validated" % c for c in ("led", "picc", "version")])
 
 
 # ---------------------------------------------------------------------------------------------------------
@@ -325,6 +402,7 @@ class Cell(object):
         self.rf_cmd_k = None
         self.first_read_k = None
         self.ref_data = None              # what the undisturbed reference exchange returned
+        self.ref_seq = None               # [(host command, payload of its valid answer)] of the reference exchange
         self.rsplog = {}                  # k -> (octets of the regular response transfer, of its header)
         a = activate(driver, kind, R, prop, field_opts)
         self.init_failed = a == "init-failed"
@@ -415,6 +493,9 @@ def where_of(action, link=None, rsp=None, cmd=None):
 # the other kinds run the same host commands through the same code and get the envelope-only core set
 PAYLOAD_FULL_KINDS = {"t2t", "t4a", "t1t", "t1t-read8", "l-tt2", "l-tt3"}
 RF_DELIVERY_CMDS = {0x40, 0x42, 0x86, 0x88, 0x8E, 0x90}      # the commands that hand RF data to / fetch it from the chip
+# host commands of an exchange that the chip answers without waiting for the other side: ReadRegister, WriteRegister,
+# RFConfiguration, TgResponseToInitiator / TgSetData / TgSetMetaData (the chip transmits and reports the result)
+NO_RF_WAIT_CMDS = {0x06, 0x08, 0x32, 0x90, 0x8E, 0x94}
 FLAGGED_STATUS_CMDS = {0x40, 0x86}       # InDataExchange / TgGetData: status = NAD (b7) | MI (b6) | error code (b5..0)
 # status values sent with octets behind them in the quick tier: flag bits only (low six bits zero), every single
 # bit, the documented error codes of the PN532/PN533 error table, the borders of the six bit error code field
@@ -455,35 +536,44 @@ def comm_class(exc):
 
 
 RELEASED_CODES = (0x0A, 0x29, 0x31)     # pn53x.Device.send_rsp_recv_cmd: "RF field not switched on in time", "released
-#                                         by the initiator", RC-S956 "RF off": reported as BrokenLinkError
-# (driver, host command) positions where a field-loss status must surface as BrokenLinkError exactly ("field loss as
-# BrokenLinkError").  Observed on the unchanged tree (2026-09-24, every target kind and command variant, bare and with
-# octets behind the status): all seven listen-capable drivers map 0Ah / 29h / 31h to nfc.clf.BrokenLinkError at
-# TgResponseToInitiator (42 of 42 trials per driver, RC-S956 30 of 30) and at TgGetInitiatorCommand (54 of 54, RC-S956
-# 42 of 42) - both host commands of a target role exchange go through the one handler of send_rsp_recv_cmd().
-RELEASED_EXACT = {(d, c) for d in ("pn531", "pn532", "pn533", "rcs956", "arygonA", "arygonB", "pn532rt") for c in (0x88, 0x90)}
-# positions where drivers legitimately differ and TransmissionError is tolerated next to BrokenLinkError: none observed
-RELEASED_TOLERATED = set()
+#                                         by the initiator", RC-S956 "RF off": what the drivers report as BrokenLinkError
+# (driver, status code) pairs where chipset manual and property statement together leave one answer ("field loss as
+# BrokenLinkError"): the RC-S956 documents 31h as "Initiator RF-OFF state detected while operating as Target" - the
+# external field is gone - at whichever of the two host commands of a target role exchange the chip reports it.
+# Not in the table (any nfc.clf.CommunicationError subclass is accepted there): 31h on PN531/PN532/PN533, whose manuals
+# do not define the code; 0Ah "RF field not activated in time by active mode peer" (as much a time-out as a missing
+# field); 29h "released by the initiator" (the end of the session at protocol level: neither time-out nor field loss nor
+# an RF error in the statement's terms).  An earlier version demanded BrokenLinkError for all three codes on all seven
+# listen-capable drivers; that table had been read off the unchanged tree, not off the manuals.
+RELEASED_EXACT = {("rcs956", 0x31)}
+ANY_COMM_CLASS = {"TimeoutError", "BrokenLinkError", "TransmissionError", "ProtocolError", "CommunicationError"}
+# further codes whose manual text describes the other side being absent / having left rather than a transmission error:
+# any CommunicationError subclass is accepted.  Initiator: 0Ah "RF field not activated in time by active mode peer", 2Bh
+# (PN532/PN533) "ISO/IEC14443-3B, card previously activated has disappeared"; target: 2Fh (RC-S956) "Already deselected by
+# the initiator in operation as DEPTarget"
+INI_ABSENT_CODES = (0x0A, 0x2B)
+TGT_LEFT_CODES = RELEASED_CODES + (0x2F,)
 
 
 def expected_status_classes(role, cmd, s, drv=None):
     """-> (clause label, set of documented classes) for error status s of RF command cmd, None if not judged.
-    Initiator (InCommunicateThru / InDataExchange): error code 01h is the chip's time-out -> TimeoutError, every other
-    error code -> TransmissionError.  Target (TgGetInitiatorCommand / TgResponseToInitiator): 0Ah / 29h / 31h are
-    documented by the driver as the remote side having left -> BrokenLinkError exactly at the (driver, command)
-    positions of RELEASED_EXACT (TransmissionError tolerated only at the positions listed in RELEASED_TOLERATED); 01h is
-    not a target side code in the manuals (TimeoutError and TransmissionError both accepted); every other code ->
-    TransmissionError."""
+    Initiator (InCommunicateThru / InDataExchange): error code 01h is the chip's time-out ("Time out, the Target has not
+    answered" in all four manuals) -> TimeoutError, every other error code -> TransmissionError.  Target
+    (TgGetInitiatorCommand / TgResponseToInitiator): 31h on the RC-S956 (RELEASED_EXACT) is field loss ->
+    BrokenLinkError exactly; 0Ah / 29h / 31h elsewhere -> any CommunicationError subclass; 01h is not a target side code
+    in the manuals (TimeoutError and TransmissionError both accepted); every other code -> TransmissionError."""
     code = s & 0x3F if cmd in FLAGGED_STATUS_CMDS else s & 0xFF
     if code == 0:
         return None
     if role == "ini" and cmd in (0x40, 0x42):
+        if code in INI_ABSENT_CODES:
+            return "absent-status-tolerated/ini", set(ANY_COMM_CLASS)
         return ("status01", {"TimeoutError"}) if code == 1 else ("error-status/ini", {"TransmissionError"})
     if role == "tgt" and cmd in (0x88, 0x90):
-        if code in RELEASED_CODES:
-            if (drv, cmd) in RELEASED_EXACT and (drv, cmd) not in RELEASED_TOLERATED:
+        if code in TGT_LEFT_CODES:
+            if (drv, code) in RELEASED_EXACT:
                 return "released-status/tgt", {"BrokenLinkError"}
-            return "released-status-tolerated/tgt", {"BrokenLinkError", "TransmissionError"}
+            return "released-status-tolerated/tgt", set(ANY_COMM_CLASS)
         if code == 1:
             return "status01/tgt", {"TimeoutError", "TransmissionError"}
         return "error-status/tgt", {"TransmissionError"}
@@ -636,6 +726,8 @@ def finer_clauses(R, cell, k, action, cmd, out, exc, data, name, case, tag):
         if exp is not None:
             label, allowed = exp
             cls = comm_class(exc) if tag == "comm" else "IOError"
+            if label == "released-status-tolerated/tgt":
+                R.count("%s_c13_released_status_tolerated_checked" % drv)
             if label == "released-status/tgt":
                 # field loss as BrokenLinkError, at either host command of the target role exchange
                 R.count("%s_c13_released_status_exact_checked" % drv)
@@ -670,15 +762,31 @@ def finer_clauses(R, cell, k, action, cmd, out, exc, data, name, case, tag):
                 return True
     elif action[0] in ("status", "status+data") and tag == "comm":
         R.seen("pn53x_c13_nonrf_status_classes", "%s/%s->%s" % (drv, name, comm_class(exc)))     # observation only
+    if action in (["fault", "ack-silence"], ["fault", "etimedout"]) and cmd in NO_RF_WAIT_CMDS:
+        # the chip acknowledged a host command that does not wait for anything on the RF side (register access,
+        # RFConfiguration, handing the response to the initiator) and then never answered it: the reader is dead, not
+        # the other side silent.  OBSERVATION ONLY (coordinator's decision): the statement allows "a CommunicationError
+        # subclass ... or IOError" for whatever the host link does, and a host time-out reported as nfc.clf.TimeoutError
+        # is inside that letter (note: findings-proposed/C13-pn53x-silent-chip-as-rf-timeout.md).  The coarse clauses
+        # and the concrete type clause have judged the outcome already.
+        R.count("%s_c13_silent_chip_observed" % drv)
+        if cell.role == "tgt":
+            R.count("%s_c13_silent_chip_as_target_observed" % drv)
+        R.count("pn53x_c13_silent_chip_%s_%s" % (cell.role, "ioerror" if tag == "ioerror" else "rf_outcome"))
+        R.seen("pn53x_c13_silent_chip_outcomes", "%s/%s/%s->%s" % (drv, cell.kind, name, got))
     if action in (["fault", "ack-silence"], ["fault", "etimedout"]) and k == last_rf and cmd in S.RF_WAIT_CMDS:
+        # target role: the host's wait for TgGetInitiatorCommand running out IS the time-out of the exchange ("timeout as
+        # TimeoutError", exchange() docstring).  Initiator role: the chip has a time-out status of its own (01h), a chip
+        # that acknowledges InCommunicateThru / InDataExchange and then stays silent may as well be called a broken host
+        # link: TimeoutError and IOError are both inside the letter of the statement
         R.count("%s_c13_finer_checked" % drv)
-        if got != "TimeoutError":
+        if got != "TimeoutError" and not (cell.role == "ini" and tag == "ioerror"):
             R.violation("%s/class/silent-after-ack@%s->%s" % (drv, name, got),
                         "%s %s: no response within the time-out of %s surfaced as %s, not nfc.clf.TimeoutError" % (
                             drv, cell.kind, name, got), case)
             return True
     if action[0] in ("status", "status+data") and cell.role == "tgt" and cmd == 0x88 and (
-            (action[1] == 0x29 and variant in ("pn532", "pn533", "rcs956")) or (action[1] == 0x31 and variant == "rcs956")):
+            action[1] == 0x31 and variant == "rcs956"):
         R.count("%s_c13_finer_checked" % drv)
         if got != "BrokenLinkError":
             R.violation("%s/class/status%02x@%s->%s" % (drv, action[1], name, got),
@@ -692,6 +800,85 @@ def finer_clauses(R, cell, k, action, cmd, out, exc, data, name, case, tag):
                         "%s %s: external field lost (CIU RFOffIRq) surfaced as %s, not BrokenLinkError" % (
                             drv, cell.kind, got), case)
             return True
+    return False
+
+
+def delivered_answer(sim, k, cmd):
+    """payload (the octets behind the response code) of the first *valid* response to host command cmd among what the
+    chip / reader queued for the host as answer to the k-th host command; None if there is none"""
+    ccid = sim.link == "ccid"
+    for it in sim.delivered.get(k) or ():
+        if isinstance(it, tuple) or (not ccid and it == F.ACK):
+            continue
+        if ccid:
+            if not F.acr122_response_clauses(it, cmd):
+                return bytes(it)[12:-2]
+            continue
+        sp = F.split(it, 1)                       # = not F.response_clauses(it, cmd), with one pass over the frame
+        d = sp["data"]
+        if not sp["clauses"] and sp["kind"] == "info" and len(d) >= 2 and d[0] == F.TFI_CHIP and d[1] == (cmd + 1) & 0xFF:
+            return bytes(d[2:])
+    return None
+
+
+def answers_of(sim):
+    return [(c, delivered_answer(sim, kk, c)) for (kk, c, _) in sim.cmdlog]
+
+
+def sent_by_other_side(cell, cmd, payload):
+    """what the card / the initiator sent according to the chip's valid answer `payload` (status, octets) to RF command
+    cmd; None if the status reports an error"""
+    from vf.sim.chipsets import pn53x as S
+    if not payload or error_status(cmd, payload[0]):
+        return None
+    d = bytes(payload[1:])
+    if cmd == 0x42 and cell.fkind in ("t2t", "t4a") and not cell.sim.st.regs.get(S.R_RXMODE, 0x80) & 0x80:
+        return d[:-2] if len(d) >= 3 else d       # RxCRCEn clear: the CIU hands the CRC_A octets over as well
+    return d
+
+
+def fidelity_clause(R, cell, k, action, cmd, out, data, case, where, name):
+    """'exchange() returns the received data': whenever the call returns octets they are what the other side sent in
+    this exchange.  Decided from what the simulated chip really handed to the host: (a) the exchange ended with an RF
+    command (InCommunicateThru / InDataExchange / TgGetInitiatorCommand) -> the data of its valid answer; (b) the data
+    came another way (CIU FIFO through ReadRegister) -> equal to the reference exchange if every host command got the
+    same valid answer as there.  True if a violation was recorded"""
+    from vf.sim.chipsets import pn53x as S
+    if out[0] != "data":
+        return False
+    drv, sim = cell.driver, cell.sim
+    R.count("%s_c13_data_fidelity_checked" % drv)
+    if action[0] != "none":
+        R.count("%s_c13_data_fidelity_under_fault_checked" % drv)
+        R.seen("pn53x_c13_data_under_fault", "%s/%s" % (where, name))
+    if sim.cmdlog and sim.cmdlog[-1][1] in S.RF_WAIT_CMDS:
+        rf_cmd = sim.cmdlog[-1][1]
+        p = delivered_answer(sim, sim.cmdlog[-1][0], rf_cmd)
+        rf_name = S.NAMES.get(rf_cmd, "%02X" % rf_cmd)
+        R.count("%s_c13_data_fidelity_by_rf_answer" % drv)
+        if p is None:
+            R.violation("%s/data/returned-without-valid-rf-answer/%s@%s" % (drv, where, name),
+                        "%s %s: clf.exchange() returned %d octets although the chip handed over no valid response to %s "
+                        "(%r at %s)" % (drv, cell.kind, len(data), rf_name, action, name), case)
+            return True
+        exp = sent_by_other_side(cell, rf_cmd, p)
+        if exp is not None and data != exp:
+            R.violation("%s/data/not-what-the-chip-delivered/%s@%s" % (drv, where, name),
+                        "%s %s: clf.exchange() returned %d octets, the valid answer of %s carried %d octets from the other "
+                        "side%s (%r at %s)" % (drv, cell.kind, len(data), rf_name, len(exp),
+                                               "" if len(exp) != len(data) else " with other content", action, name), case)
+            return True
+        return False
+    seq = answers_of(sim)
+    if cell.ref_seq is not None and seq == cell.ref_seq and None not in [a for _, a in seq]:
+        R.count("%s_c13_data_fidelity_by_identical_answers" % drv)
+        if data != cell.ref_data:
+            R.violation("%s/data/differs-with-identical-chip-answers/%s@%s" % (drv, where, name),
+                        "%s %s: every host command got the same valid answer as in the reference exchange but "
+                        "clf.exchange() returned other data (%r at %s)" % (drv, cell.kind, action, name), case)
+            return True
+    else:
+        R.count("%s_c13_data_fidelity_not_judged" % drv)
     return False
 
 
@@ -762,6 +949,10 @@ def run_cell_c13(R, driver, kind, tier, rng, only=None, variant=0):
     cell.first_read_k = (cmds.index(0x06) + 1) if 0x06 in cmds else None
     cell.rsplog = dict(sim.rsplog)
     cell.ref_data = data
+    cell.ref_seq = answers_of(sim)
+    fidelity_clause(R, cell, 0, ["none"], cmds[-1], out2, data2,
+                    {"family": "pn53x_family", "driver": driver, "kind": kind, "variant": variant, "k": -1, "action": ["none"],
+                     "follow": False}, "no-fault", S.NAMES.get(cmds[-1], "%02X" % cmds[-1]))
     if sorted(cell.rsplog) != list(range(1, n + 1)):
         R.inconc("%s/%s: the simulator did not log a regular response for every host command of the reference exchange" % (driver, kind))
         return
@@ -808,6 +999,8 @@ def run_cell_c13(R, driver, kind, tier, rng, only=None, variant=0):
             case0 = {"family": "pn53x_family", "driver": driver, "kind": kind, "variant": variant, "k": k, "action": action, "follow": False}
             check_bad_writes(R, sim, driver, case0, "c13")
             bad = judge_c13(R, cell, k, action, cmd, out, exc, data=data)
+            if not bad and out[0] == "data":
+                bad = fidelity_clause(R, cell, k, action, cmd, out, data, case0, where, S.NAMES.get(cmd, "%02X" % cmd))
             if R.evals % 997 == 0:
                 R.sample({"driver": driver, "kind": kind, "k": k, "command": S.NAMES.get(cmd), "action": action,
                           "outcome": list(out)})
@@ -818,9 +1011,15 @@ def run_cell_c13(R, driver, kind, tier, rng, only=None, variant=0):
                 #                               named faults (garbled-all, wrongcode, nostatus, ...) already
             if follow_wanted and not bad:
                 sim.script = {}
-                out3, exc3, _ = cell.exchange({})
+                out3, exc3, data3 = cell.exchange({})
                 R.count("%s_c13_followup_exchanges" % driver)
-                judge_c13(R, cell, k, action, cmd, out3, exc3, follow=True)
+                if not judge_c13(R, cell, k, action, cmd, out3, exc3, follow=True) and out3[0] == "data":
+                    fidelity_clause(R, cell, k, action, cmd, out3, data3, dict(case0, follow=True), where + "+next-exchange",
+                                    S.NAMES.get(cmd, "%02X" % cmd))
+    if only is None or only[1][0] == "timeout":
+        run_timeouts_c13(R, cell, None if only is None else only[3])
+    if (only is None and variant == 0) or (only is not None and only[1][0] == "twofault"):
+        run_twofault_c13(R, cell, n, cmds, tier, None if only is None else only[3])
 
 
 # host-link faults while a target kind is being entered --------------------------------------------------------
@@ -946,6 +1145,179 @@ def run_activation_c13(R, driver, kind, tier, rng, only=None):
                             at_rf=False, stage="sense" if role == "ini" else "listen", kind=kind)
 
 
+# the time-out argument of a target role exchange, and two faults in a row ------------------------------------
+TIMEOUT_DIM = [("zero", 0, True), ("zero", 0, False), ("none", None, True), ("none", None, False)]
+
+
+def outcome_of(cell, data, tmo, script):
+    """clf.exchange(data, tmo) on the cell as it is (no reset) -> (outcome tuple, exception, returned octets)"""
+    saved = cell.data, cell.tmo
+    cell.data, cell.tmo = data, tmo
+    try:
+        return cell.exchange(script)
+    finally:
+        cell.data, cell.tmo = saved
+
+
+def coarse_clause(R, cell, out, exc, where, name, what, case):
+    """the statement's first sentence for one outcome: octets (None only as a target), a CommunicationError subclass of
+    a documented public type, or IOError; True if a violation was recorded"""
+    drv = cell.driver
+    tag = out[0]
+    if tag == "bound":
+        R.inconc("%s/%s: host command bound hit (%s)" % (drv, cell.kind, what))
+        return True
+    if tag == "escape":
+        R.violation("%s/escape/%s/%s@%s" % (drv, exc_sig(exc), where, name),
+                    "%s %s: clf.exchange() raised %s (%s): %s" % (drv, cell.kind, type(exc).__name__, str(exc)[:80], what), case)
+        return True
+    if tag == "badtype":
+        R.violation("%s/return-type/%s/%s@%s" % (drv, out[1], where, name),
+                    "%s %s: clf.exchange() returned a %s: %s" % (drv, cell.kind, out[1], what), case)
+        return True
+    if tag == "none" and cell.role == "ini":
+        R.violation("%s/return-none/initiator/%s@%s" % (drv, where, name),
+                    "%s %s: clf.exchange() returned None while talking to a remote target: %s" % (drv, cell.kind, what), case)
+        return True
+    if tag in ("comm", "ioerror") and exc is not None and not public_exception_type(exc):
+        R.violation("%s/internal-type/%s(%s)/%s@%s" % (drv, exc_sig(exc), comm_class(exc), where, name),
+                    "%s %s: clf.exchange() raised the driver-internal %s: %s" % (drv, cell.kind, type_name(exc), what), case)
+        return True
+    return False
+
+
+def last_command_name(sim):
+    from vf.sim.chipsets import pn53x as S
+    return S.NAMES.get(sim.cmdlog[-1][1], "%02X" % sim.cmdlog[-1][1]) if sim.cmdlog else "no-host-command"
+
+
+def run_timeouts_c13(R, cell, only=None):
+    """target role: exchange() with time-out 0 (nfc.dep sends its last response that way: do not wait for a command) and
+    None (the default of Device.send_rsp_recv_cmd: wait without limit), with response data and receive-only, each
+    followed by a regular exchange.  Coarse clause for both calls; octets returned must be what the initiator sent."""
+    drv, kind = cell.driver, cell.kind
+    if cell.role != "tgt" or not cell.ok:
+        return
+    for label, tmo, send in TIMEOUT_DIM:
+        if only is not None and (only["tmo"], bool(only["send"])) != (label, send):
+            continue
+        if send and cell.data is None:
+            continue
+        case = {"family": "pn53x_family", "stage": "timeout", "driver": drv, "kind": kind, "variant": cell.variant,
+                "tmo": label, "send": send}
+        where = "timeout-%s%s" % (label, "" if send else "+recv-only")
+        cell.reset()
+        out, exc, data = outcome_of(cell, bytearray(cell.data) if send else None, tmo, {})
+        R.case(("timeout", drv, kind, cell.variant, label, send))
+        R.count("%s_c13_timeout_%s_checked" % (drv, label))
+        if not send:
+            R.count("%s_c13_timeout_recv_only_checked" % drv)
+        R.seen("pn53x_c13_timeout_outcomes", "%s/%s/%s->%s" % (drv, kind, where, ":".join(str(x) for x in out[:2])))
+        name = last_command_name(cell.sim)
+        what = "time-out argument %r, %s" % (tmo, "with response data" if send else "receive only")
+        if coarse_clause(R, cell, out, exc, where, name, what, case):
+            continue
+        if fidelity_clause(R, cell, 0, ["timeout", label], None, out, data, case, where, name):
+            continue
+        # the regular exchange after it
+        out2, exc2, data2 = outcome_of(cell, bytearray(cell.data) if cell.data is not None else None, cell.tmo, {})
+        R.count("%s_c13_timeout_followup_checked" % drv)
+        R.seen("pn53x_c13_timeout_outcomes", "%s/%s/%s+next-exchange->%s" % (drv, kind, where, ":".join(str(x) for x in out2[:2])))
+        if coarse_clause(R, cell, out2, exc2, where + "+next-exchange", last_command_name(cell.sim), what + ", then a regular exchange",
+                         dict(case, follow=True)):
+            continue
+        fidelity_clause(R, cell, 0, ["timeout", label], None, out2, data2, dict(case, follow=True), where + "+next-exchange",
+                        last_command_name(cell.sim))
+
+
+TWOFAULT_FIRST = {"ini": [["status", 0x01], ["status", 0x13], ["fault", "ack-silence"]],
+                  "tgt": [["status", 0x0A], ["status", 0x29], ["status", 0x13], ["fault", "ack-silence"]]}
+
+
+def run_twofault_c13(R, cell, n, cmds, tier, only=None):
+    """(a) the chip falls silent after the ACK of the k-th host command and the write of the ACK frame with which the
+    driver then cancels the command fails too (an error path that does I/O inside an except clause);
+    (b) the RF command of one exchange ends with an error status / silence and the transport fails hard at the first
+    host command of the next exchange (write, ACK and response phase).
+    Coarse clause (nothing foreign, also not as the chained context of what is raised); (b): IOError only."""
+    from vf.sim.chipsets import pn53x as S
+    drv, kind, sim = cell.driver, cell.kind, cell.sim
+    link = sim.link
+    wfaults = [f for f in S.faults_for(link) if f.endswith("@write")]
+    rf = cell.rf_cmd_k if cell.rf_cmd_k is not None else n
+    if link != "ccid":
+        ks = range(1, n + 1) if n <= 6 else sorted({1, 2, rf, n})
+        for k in ks:
+            for wf in wfaults:
+                if only is not None and only.get("sub") != ["cancel", k, wf]:
+                    continue
+                case = {"family": "pn53x_family", "stage": "twofault", "driver": drv, "kind": kind, "variant": cell.variant,
+                        "sub": ["cancel", k, wf]}
+                cell.reset()
+                out, exc, data = cell.exchange({k: ["fault", "ack-silence"], "ack": ["fault", wf]})
+                hit = [a for a in sim.applied if a[0] == "ack"]
+                R.case(("twofault", drv, kind, cell.variant, "cancel", k, wf), nontrivial=bool(hit))
+                if not hit:
+                    R.count("%s_c13_twofault_cancel_write_not_reached" % drv)
+                    continue
+                R.count("%s_c13_twofault_cancel_write_checked" % drv)
+                name = S.NAMES.get(cmds[k - 1], "%02X" % cmds[k - 1])
+                R.seen("pn53x_c13_twofault_outcomes", "%s/cancel/%s/%s->%s" % (drv, name, wf, ":".join(str(x) for x in out[:2])))
+                what = "chip silent after the ACK of %s, then the cancel ACK write fails (%s)" % (name, wf)
+                where = "silent+cancel-write-fails"
+                if coarse_clause(R, cell, out, exc, where, name, what, case):
+                    continue
+                if fidelity_clause(R, cell, k, ["twofault"], None, out, data, case, where, name):
+                    continue
+                chain = exc.__context__ if exc is not None else None
+                if chain is not None and not (public_exception_type(chain) or type(chain).__module__.startswith("nfc.clf")):
+                    R.count("%s_c13_twofault_foreign_context_not_judged" % drv)
+                out2, exc2, data2 = cell.exchange({})
+                R.count("%s_c13_twofault_followup_checked" % drv)
+                if not coarse_clause(R, cell, out2, exc2, where + "+next-exchange", last_command_name(sim), what + ", then a regular exchange",
+                                     dict(case, follow=True)):
+                    fidelity_clause(R, cell, 0, ["twofault"], None, out2, data2, dict(case, follow=True), where + "+next-exchange",
+                                    last_command_name(sim))
+    hard = [f for f in S.faults_for(link) if S.fault_phase(link, f)]
+    if tier == "quick":
+        hard = [f for f in hard if not S.errno_collision(f)]
+    firsts = [a for a in TWOFAULT_FIRST[cell.role] if link != "ccid" or a != ["fault", "ack-silence"]]
+    if link == "ccid":
+        firsts.append(["fault", "etimedout"])
+    for first in firsts:
+        if first[0] == "status" and not sim.has_status(cmds[rf - 1]):
+            continue
+        for f in hard:
+            if only is not None and only.get("sub") != ["next", first, f]:
+                continue
+            case = {"family": "pn53x_family", "stage": "twofault", "driver": drv, "kind": kind, "variant": cell.variant,
+                    "sub": ["next", first, f]}
+            cell.reset()
+            out, exc, data = cell.exchange({rf: first})
+            n1 = sim.since_mark()
+            delivered1 = any(a[0] == rf for a in sim.applied)
+            out2, exc2, data2 = cell.exchange({n1 + 1: ["fault", f]})
+            delivered2 = any(a[0] == n1 + 1 for a in sim.applied)
+            R.case(("twofault", drv, kind, cell.variant, "next", tuple(first), f), nontrivial=delivered1 and delivered2)
+            if not (delivered1 and delivered2):
+                R.count("%s_c13_twofault_next_not_delivered" % drv)
+                continue
+            R.count("%s_c13_twofault_next_exchange_checked" % drv)
+            name = last_command_name(sim)
+            phase = S.fault_phase(link, f)
+            where = "rf-error-then-hostlink-%s" % phase
+            what = "%r at the RF command, then %s at the first host command of the next exchange" % (first, f)
+            R.seen("pn53x_c13_twofault_outcomes", "%s/next/%s/%s->%s" % (drv, first[1], phase, ":".join(str(x) for x in out2[:2])))
+            if coarse_clause(R, cell, out, exc, "first-of-two", name, what, case):
+                continue
+            if coarse_clause(R, cell, out2, exc2, where, name, what, case):
+                continue
+            if out2[0] != "ioerror":
+                got = out2[1] if out2[0] == "comm" else out2[0]
+                R.violation("%s/class/hostlink-%s/after-rf-error@%s->%s" % (drv, phase, name, got),
+                            "%s %s: %s: the host link failed but the driver reported %s instead of IOError" % (drv, kind, what, got), case)
+
+
 # cells and shards ------------------------------------------------------------------------------------------
 QUICK_EXTRA = {"t4a": [1], "dep424": [1], "l-tt2": [1], "l-tt4": [1], "l-tt3": [1], "t2t": [1], "l-dep106": [1]}
 
@@ -989,15 +1361,27 @@ def run_c13(desc, R, rng):
         run_cell_c13(R, d, k, desc.get("tier", "quick"), rng, variant=v)
         if v == 0 and k in ACTIVATION_KINDS:
             run_activation_c13(R, d, k, desc.get("tier", "quick"), rng)
+    # a scripted action that the simulator could not apply says nothing about the driver: more than 5 % of them in
+    # this shard and the enumeration is not what RULE_C13 claims
+    cnt = R.counters if hasattr(R, "counters") else {}
+    for d in sorted({c[0] for c in desc["cells"]}):
+        total = cnt.get("%s_c13_exchanges" % d, 0) + cnt.get("%s_c13_activation_attempts" % d, 0)
+        missed = cnt.get("%s_c13_action_not_delivered" % d, 0)
+        if total and missed * 20 > total:
+            R.inconc("%s: %d of %d scripted actions were not delivered by the simulator (> 5 %%)" % (d, missed, total))
     R.exhaustive = False
 
 
 def replay_c13(case, R):
     if not selftests(R):
         return
-    action = list(case["action"])
+    action = list(case.get("action") or ["none"])
     if case.get("stage") == "activation":
         run_activation_c13(R, case["driver"], case["kind"], "quick", random.Random(0), only=(int(case["k"]), action))
+        return
+    if case.get("stage") in ("timeout", "twofault"):
+        run_cell_c13(R, case["driver"], case["kind"], "quick", random.Random(0), only=(-1, [case["stage"]], False, case),
+                     variant=int(case.get("variant", 0)))
         return
     if action[0] == "none":
         run_cell_c13(R, case["driver"], case["kind"], "quick", random.Random(0), only=(-1, ["none"], False),
@@ -1034,10 +1418,10 @@ def quick_lengths(maxlen, rng, tier):
     return sorted(x for x in ls if 0 <= x <= maxlen)
 
 
-def good_items(sim, cmd, payload):
+def good_items(sim, cmd, payload, extended=None):
     if sim.link == "ccid":
         return [F.ccid_build_datablock(bytes([0xD5, (cmd + 1) & 0xFF]) + bytes(payload) + b"\x90\x00", 0, 0, 0, 0x81)]
-    return [F.ACK, F.build_response(cmd, payload)]
+    return [F.ACK, F.build_response(cmd, payload, extended)]
 
 
 def run_command_side(R, driver, tier, rng, reps, only=None):
@@ -1062,6 +1446,12 @@ def run_command_side(R, driver, tier, rng, reps, only=None):
         for ln in (lens if fixed is None else [len(fixed)]):
             for rep in range(reps if fixed is None else 1):
                 data = rng.randbytes(ln) if fixed is None else bytes(fixed)
+                if fixed is None and rep == 1 and ln >= 3:
+                    # what delimits frames on the link must be harmless inside a payload: start code, ACK, NACK, zeros
+                    pat = rng.choice([b"\x00\x00\xff", bytes(F.ACK), bytes(F.NACK), b"\x00\xff", b"\x00\x00\xff\xff\xff"])[:ln]
+                    at = rng.choice([0, ln - len(pat), rng.randrange(0, ln - len(pat) + 1)])
+                    data = data[:at] + pat + data[at + len(pat):]
+                    R.count("%s_frames_payload_with_start_code" % driver)
                 rlen = rng.choice([0, 1, 2, 252, 253, 254, 255, 256, 262, rng.randrange(0, 263)])
                 if driver in ("pn531", "arygonA"):
                     rlen = min(rlen, 252)
@@ -1117,6 +1507,9 @@ def mutations(base, rng, nrand, full):
         yield "extend", b + ext
     for pre in (b"\x00", b"\xff", rng.randbytes(1)):
         yield "prepend", pre + b
+    for i in (1, 2, 3):
+        if n > i + 1:
+            yield "behead", b[i:]
     deltas = (1, 5, 0x80) if (full or n < 64) else (5,)
     for i in range(n - 1):
         for d in deltas:
@@ -1144,9 +1537,10 @@ def mutations(base, rng, nrand, full):
         yield "pair-sum", bytes(m)
 
 
-def judge_response(R, driver, sim, chipset, cmd, sent, consumed, cls, case):
+def judge_response(R, driver, sim, chipset, cmd, sent, consumed, cls, case, readonly=False):
     """run one command whose answer is `sent` (list of queue items); consumed = the frame the driver parses as the
-    response.  Returns outcome tag."""
+    response.  readonly: Chipset.command(cmd, None, t) - nothing is written, the frames are waiting already.
+    Returns outcome tag."""
     import nfc.clf.pn53x as pn53x
     from vf.sim.chipsets import pn53x as S
     ccid = sim.link == "ccid"
@@ -1155,13 +1549,21 @@ def judge_response(R, driver, sim, chipset, cmd, sent, consumed, cls, case):
     given = consumed
 
     def handed_over():
-        # the frame the transport gave to Chipset.command as the response = first frame read that is not an ACK
+        # the frame the transport gave to Chipset.command as the response = first frame read that is not an ACK;
+        # an ACK glued in front of it in one transfer is not part of the response frame
         for f in sim.vf_reads:
             if f is not None and f != F.ACK:
-                return f
+                return f[len(F.ACK):] if cls.startswith("glued") and f[:len(F.ACK)] == F.ACK and len(f) > len(F.ACK) else f
         return given
     try:
-        got = chipset.command(cmd, bytearray(b"\x01\x02"), 0.1)
+        if readonly:
+            flush = getattr(getattr(chipset.transport, "tty", None), "flushInput", None)
+            if flush is not None:
+                flush()                    # nothing is written on this path, so nothing flushes a serial port's buffer
+            sim.q = list(sent)
+            got = chipset.command(cmd, None, 0.1)
+        else:
+            got = chipset.command(cmd, bytearray(b"\x01\x02"), 0.1)
         consumed = handed_over()
     except S.SimBound as e:
         R.inconc("%s: simulator command bound: %s" % (driver, e))
@@ -1208,6 +1610,68 @@ def judge_response(R, driver, sim, chipset, cmd, sent, consumed, cls, case):
     return "accepted"
 
 
+def struct_positions(frame, ccid):
+    """(name, index) of every structural octet of a valid response frame / ACR122U answer"""
+    f = bytes(frame)
+    n = len(f)
+    if ccid:
+        # RDR_to_PC_DataBlock: bMessageType, dwLength (4, little endian); pseudo-APDU: D5, response code, .., SW1 SW2
+        return [("ccid-type", 0), ("ccid-len", 1), ("ccid-len", 2), ("ccid-len", 3), ("ccid-len", 4),
+                ("tfi", 10), ("code", 11), ("sw", n - 2), ("sw", n - 1)]
+    if f[3:5] == b"\xff\xff":
+        return [("preamble", 0), ("startcode", 1), ("startcode", 2), ("extmark", 3), ("extmark", 4), ("len", 5), ("len", 6),
+                ("lcs", 7), ("tfi", 8), ("code", 9), ("dcs", n - 2), ("postamble", n - 1)]
+    return [("preamble", 0), ("startcode", 1), ("startcode", 2), ("len", 3), ("lcs", 4), ("tfi", 5), ("code", 6),
+            ("dcs", n - 2), ("postamble", n - 1)]
+
+
+def struct_mutations(base, ccid):
+    """every structural octet replaced by each of the 255 other values: "struct-bare" as it is, "struct-comp" with the
+    checksum that covers the octet recomputed (LCS after a length octet, DCS after TFI / response code / first payload
+    octet), so that exactly the clause of that octet fails under the validator - or, for a payload octet, none"""
+    b = bytes(base)
+    pos = struct_positions(b, ccid)
+    ext = (not ccid) and b[3:5] == b"\xff\xff"
+    hdr = 8 if ext else 5
+    for name, i in pos:
+        for v in range(256):
+            if v == b[i]:
+                continue
+            m = bytearray(b)
+            m[i] = v
+            yield "struct-bare", name, bytes(m)
+    if ccid:
+        return
+    comp = [(name, i) for name, i in pos if name in ("len", "tfi", "code")]
+    if len(b) - 2 > hdr + 2:
+        comp.append(("payload", hdr + 2))
+    for name, i in comp:
+        for v in range(256):
+            if v == b[i]:
+                continue
+            m = bytearray(b)
+            m[i] = v
+            if name == "len":
+                if ext:
+                    m[7] = (-(m[5] + m[6])) & 0xFF
+                else:
+                    m[4] = (-m[3]) & 0xFF
+            else:
+                m[-2] = (-sum(m[hdr:-2])) & 0xFF
+            yield "struct-comp", name, bytes(m)
+
+
+def only_clause(m, cmd, ccid):
+    """the single clause of the validator a would-be response breaks, None if it breaks none or several"""
+    bad = F.acr122_response_clauses(m, cmd) if ccid else F.response_clauses(m, cmd)
+    if len(bad) > 1 and "not-information-frame" in bad:
+        bad.remove("not-information-frame")          # a consequence of the clause in front of it, not a clause
+    return bad[0].replace("-", "_") if len(bad) == 1 else None
+
+
+RSP_CODES_QUICK_EXTRA = [0x02, 0x00, 0x4A, 0x40, 0x88, 0x8C, 0x90]       # next to InCommunicateThru / ReadRegister
+
+
 def run_response_side(R, driver, tier, rng, only=None):
     made = chipset_for(R, driver)
     if made is None:
@@ -1219,43 +1683,87 @@ def run_response_side(R, driver, tier, rng, only=None):
     if only is not None:
         sent = [bytes(x) for x in only["sent"]]
         case = dict(only)
-        judge_response(R, driver, sim, chipset, only["cmd"], sent, bytes(only["consumed"]), only.get("cls", "replay"), case)
+        judge_response(R, driver, sim, chipset, only["cmd"], sent, bytes(only["consumed"]), only.get("cls", "replay"), case,
+                       readonly=bool(only.get("readonly")))
         return
+
+    def trial(cmd, items, m, cls, key, isolate=False, readonly=False):
+        case = {"family": "pn53x_family", "part": "response", "driver": driver, "cmd": cmd, "cls": cls,
+                "sent": items, "consumed": m}
+        if readonly:
+            case["readonly"] = True
+        R.case((key, driver, cmd, m), nontrivial=True)
+        R.count("%s_responses_mutated" % driver)
+        R.count("%s_mut_%s" % (driver, cls.replace("-", "_")))
+        if cmd not in (0x42, 0x06):
+            R.count("%s_mut_other_response_codes" % driver)
+        verdict = judge_response(R, driver, sim, chipset, cmd, items, m, cls, case, readonly=readonly)
+        if isolate:
+            c = only_clause(m, cmd, ccid)
+            if c is not None:
+                R.count("%s_mut_only_%s_%s" % (driver, c, verdict))
+        if R.evals % 4999 == 0:
+            R.sample({"driver": driver, "mutation": cls, "response": m[:24], "verdict": verdict})
+        return verdict
+
     plens = [0, 1, 2, 16, 200, 252] if small else [0, 1, 2, 16, 200, 252, 253, 254, 262]
     if full:
         plens = sorted(set(plens + [3, 5, 64, 128, 251] + ([] if small else [255, 256, 263])))
     cmds = [0x42, 0x06] if not full else [0x42, 0x06, 0x88, 0x00, 0x4A]
-    for cmd in cmds:
-        for pl in plens:
-            payload = rng.randbytes(pl)
-            base_items = good_items(sim, cmd, payload)
-            base = base_items[-1]
-            case = {"family": "pn53x_family", "part": "response", "driver": driver, "cmd": cmd, "cls": "base",
-                    "sent": base_items, "consumed": base}
-            R.count("%s_mut_bases" % driver)
-            if judge_response(R, driver, sim, chipset, cmd, base_items, base, "base", case) != "accepted":
-                R.violation("%s/reject-valid" % driver, "%s did not return the data of a valid response (%d payload bytes)" % (driver, pl), case)
-                continue
-            nrand = (60 if pl < 64 else 150) if not full else 1500
-            heavy = pl >= 64 and not full
-            for cls, m in mutations(base, rng, nrand, full):
-                if heavy and cls == "bitflip" and cmd != cmds[0]:
-                    continue                      # long frames: all bit flips once per length in the quick tier
-                items = base_items[:-1] + [m]
-                case = {"family": "pn53x_family", "part": "response", "driver": driver, "cmd": cmd, "cls": cls,
-                        "sent": items, "consumed": m}
-                R.case(("rsp", driver, cmd, m), nontrivial=True)
-                R.count("%s_responses_mutated" % driver)
-                R.count("%s_mut_%s" % (driver, cls))
-                verdict = judge_response(R, driver, sim, chipset, cmd, items, m, cls, case)
-                if R.evals % 4999 == 0:
-                    R.sample({"driver": driver, "mutation": cls, "response": m[:24], "verdict": verdict})
-    # the ACK in front of the response (frame links only): whatever the driver ends up parsing must be valid
+    plan = [(c, pl) for c in cmds for pl in plens]
+    # the other response codes the drivers meet: short frames, every class of mutation
+    plan += [(c, pl) for c in RSP_CODES_QUICK_EXTRA if c not in cmds for pl in ((1, 7) if not full else (0, 1, 7, 40))]
+    for cmd, pl in plan:
+        payload = rng.randbytes(pl)
+        base_items = good_items(sim, cmd, payload)
+        base = base_items[-1]
+        case = {"family": "pn53x_family", "part": "response", "driver": driver, "cmd": cmd, "cls": "base",
+                "sent": base_items, "consumed": base}
+        R.count("%s_mut_bases" % driver)
+        R.seen("pn53x_response_codes_mutated", "%s/%02X" % (driver, (cmd + 1) & 0xFF))
+        if judge_response(R, driver, sim, chipset, cmd, base_items, base, "base", case) != "accepted":
+            R.violation("%s/reject-valid" % driver, "%s did not return the data of a valid response (%d payload bytes)" % (driver, pl), case)
+            continue
+        if not ccid:
+            R.count("%s_responses_%s_mutated" % (driver, "extended" if F.split(base)["extended"] else "normal"))
+        nrand = (60 if pl < 64 else 150) if not full else 1500
+        heavy = pl >= 64 and not full
+        for cls, m in mutations(base, rng, nrand, full):
+            if heavy and cls == "bitflip" and cmd != cmds[0]:
+                continue                      # long frames: all bit flips once per length in the quick tier
+            trial(cmd, base_items[:-1] + [m], m, cls, "rsp", isolate=cls in ("prepend", "behead"))
+    # every structural octet x all 255 other values, bare and with the covering checksum recomputed: a normal frame, an
+    # extended frame (quick: a short one - the chip may use the extended format for any length; thorough: also >255)
+    sweep = [(0x42, 5, None)]
+    if not ccid and not small:
+        sweep.append((0x06, 3, True))
+        if full:
+            sweep += [(0x42, 300, None), (0x88, 1, True)]
+    if full:
+        sweep += [(0x4A, 0, None), (0x06, 1, None)]
+    for cmd, pl, ext in sweep:
+        payload = rng.randbytes(pl)
+        base_items = good_items(sim, cmd, payload, ext)
+        base = base_items[-1]
+        case = {"family": "pn53x_family", "part": "response", "driver": driver, "cmd": cmd, "cls": "base",
+                "sent": base_items, "consumed": base}
+        if judge_response(R, driver, sim, chipset, cmd, base_items, base, "base", case) != "accepted":
+            R.violation("%s/reject-valid/%s" % (driver, "extended" if ext else "normal"),
+                        "%s did not return the data of a valid %s response frame (%d payload bytes)" % (
+                            driver, "extended" if ext else "normal", pl), case)
+            continue
+        R.count("%s_struct_sweep_bases" % driver)
+        if not ccid and F.split(base)["extended"]:
+            R.count("%s_struct_sweep_extended_bases" % driver)
+        for cls, name, m in struct_mutations(base, ccid):
+            R.count("%s_struct_%s" % (driver, name.replace("-", "_")))
+            trial(cmd, base_items[:-1] + [m], m, cls, "struct", isolate=True)
     if not ccid:
         payload = rng.randbytes(5)
         rsp = F.build_response(0x42, payload)
+        # the ACK in front of the response (frame links only): whatever the driver ends up parsing must be valid
         for cls, m in mutations(F.ACK, rng, 30, True):
-            if cls in ("extend", "prepend") or m == F.ACK:
+            if cls in ("extend", "prepend", "behead") or m == F.ACK:
                 continue
             items = [m, rsp]
             consumed = m              # a non-ACK first frame is what the driver parses
@@ -1264,6 +1772,32 @@ def run_response_side(R, driver, tier, rng, only=None):
             R.case(("ack", driver, m), nontrivial=True)
             R.count("%s_ack_mutated" % driver)
             judge_response(R, driver, sim, chipset, 0x42, items, consumed, "ack", case)
+        # ACK and response handed over by the transport in one piece: either refused (IOError) or the response part is
+        # parsed and validated like any response (a transport with stream semantics delivers them separately anyway)
+        for pl in (0, 5, 40):
+            rsp = F.build_response(0x42, rng.randbytes(pl))
+            v = trial(0x42, [F.ACK + rsp], rsp, "glued-valid", "glued")
+            R.count("%s_glued_valid_%s" % (driver, v))
+            for cls, m in mutations(rsp, rng, 20, False):
+                if cls in ("bitflip", "substitute", "pair-sum") and m != rsp:
+                    trial(0x42, [F.ACK + m], m, "glued-" + cls, "glued")
+        # Chipset.command(code, None, timeout): nothing written, the response is read and validated the same way
+        for j, (cmd, pl) in enumerate(((0x88, 17), (0x42, 5), (0x06, 1)) if full else ((0x88, 17), (0x06, 1))):
+            rsp = F.build_response(cmd, rng.randbytes(pl))
+            for items in ([rsp], [F.ACK, rsp]):
+                case = {"family": "pn53x_family", "part": "response", "driver": driver, "cmd": cmd, "cls": "readonly-base",
+                        "sent": items, "consumed": rsp, "readonly": True}
+                if judge_response(R, driver, sim, chipset, cmd, items, rsp, "readonly-base", case, readonly=True) != "accepted":
+                    R.violation("%s/reject-valid/read-only" % driver,
+                                "%s Chipset.command(%02Xh, None, t) did not return the data of the valid response that was "
+                                "waiting" % (driver, cmd), case)
+                    continue
+                R.count("%s_readonly_bases" % driver)
+            for cls, m in mutations(rsp, rng, 30, False):
+                trial(cmd, [m], m, "readonly-" + cls, "readonly", readonly=True)
+            for cls, name, m in struct_mutations(rsp, False):
+                if cls == "struct-comp" and (j == 0 or full):
+                    trial(cmd, [m], m, "readonly-" + cls, "readonly", isolate=True, readonly=True)
 
 
 # ---- CRC ------------------------------------------------------------------------------------------------------
@@ -1439,6 +1973,8 @@ def crc_trial(R, cell, driver, kind, which, raw, cls, sel=None):
     case = {"family": "pn53x_family", "part": "drvcrc", "driver": driver, "kind": kind, "raw": bytes(raw), "cls": cls}
     if sel is not None:
         case["sel_res"] = sel
+    if check_bad_writes(R, cell.sim, driver, case):
+        return
     R.case(("drvcrc", driver, kind, sel, bytes(raw)))
     R.count(cname)
     if len(raw) < 3:
@@ -1540,9 +2076,10 @@ def allowed_on_air(cmd, path, hwcrc, fkind):
     None when the monitor has no CRC reference for the path (FeliCa / NFC-DEP frames without the chip's CRC)"""
     cmd = bytes(cmd)
     if path == "ciu":                                   # Type 1 Tag command octet by octet: CRC_B by software
-        if cmd[:1] == b"\x10":                          # RSEG is emulated with 16 READ8 commands
-            seg = (cmd[1] >> 4) * 16
-            return {refcrc.append_crc_b(bytes([0x02, b]) + cmd[2:]) for b in range(seg, seg + 16)}, "sw-crc_b"
+        if cmd[:1] == b"\x10":                          # RSEG: the command itself, or (what the PN533 driver does,
+            seg = (cmd[1] >> 4) * 16                    # its firmware having no RSEG) the 16 READ8 of that segment
+            return {refcrc.append_crc_b(cmd)} | {refcrc.append_crc_b(bytes([0x02, b]) + cmd[2:])
+                                                 for b in range(seg, seg + 16)}, "sw-crc_b"
         return {refcrc.append_crc_b(cmd)}, "sw-crc_b"
     if path == "dx" or hwcrc:                           # firmware / CIU appends the CRC: the command as it is
         return {cmd}, "hw-crc"
@@ -1631,6 +2168,8 @@ def retx_trial(R, driver, cell, label, cmd, tmo, schedule, n_ref, via="exchange"
         modified = modified or now_modified
         when = "first" if i == 0 else "retransmit-same-buffer"
         R.count("%s_retx_exchanges" % driver)
+        if check_bad_writes(R, cell.sim, driver, case):
+            return
         if judge_on_air(R, driver, cell, cmd, frames, when, via, case, modified):
             return
         if i > 0 and not frames:
@@ -1674,6 +2213,8 @@ def tt1_loop_trial(R, driver, cell, op, schedule):
     except Exception as e:       # noqa
         got = ("escape", type(e).__name__)
     frames = list(fld.air)
+    if check_bad_writes(R, cell.sim, driver, case):
+        return
     if op != "read_segment":
         R.count("pn53x_tt1_retry_loop_retransmissions", max(0, len(frames) - 1))
     R.seen("pn53x_tt1_retry_loop_outcomes", "%s/%s: %s after %d transmissions" % (op, "-".join(str(e) for e in schedule), got[0], len(frames)))
@@ -1731,6 +2272,87 @@ def run_retx(R, driver, tier, rng, only=None):
                     tt1_loop_trial(R, driver, cell, op, sch)
 
 
+# ---- frames written while the driver is really operated -------------------------------------------------------
+def run_operation(R, driver, tier, rng, only=None):
+    """init(), sense()/listen() into every supported target kind, a regular exchange, an exchange during which the chip
+    falls silent at the RF command (the host cancels it with an ACK frame), a regular exchange again, close(): every
+    frame / CCID message the driver writes on the way must pass the validator (ACK frames and the ACR122U reader
+    commands for LED, PICC parameters and version included)"""
+    import nfc.clf
+    from vf.sim.chipsets import pn53x as S
+    for kind in SUPPORT[driver]:
+        if only is not None and only.get("kind") != kind:
+            continue
+        case = {"family": "pn53x_family", "part": "operation", "driver": driver, "kind": kind}
+        prep = prepare(driver, kind, R, "c14")
+        if prep == "init-failed":
+            return
+        clf, sim, role, enter = prep
+        sim.command_bound = 10 ** 6
+        R.case(("operation", driver, kind))
+        steps = []
+
+        def step(name, fn):
+            """a stage of the operation; what the call raises is C13's matter, the frames it wrote are judged here"""
+            acks0 = sim.aborts                      # every ACK the chip / reader understood (frame link or CCID)
+            try:
+                r = fn()
+            except (nfc.clf.Error, OSError):
+                r = None
+            except S.SimBound as e:
+                R.inconc("%s/%s: simulator command bound in the operation workload: %s" % (driver, kind, e))
+                r = None
+            except Exception:            # noqa  (C13 judges escapes)
+                R.count("%s_op_escapes_not_judged_here" % driver)
+                r = None
+            steps.append(name)
+            R.count("%s_op_acks_at_%s" % (driver, name.replace("-", "_")), sim.aborts - acks0)
+            bad = check_bad_writes(R, sim, driver, dict(case, stage=name))
+            return r, bad
+
+        if check_bad_writes(R, sim, driver, dict(case, stage="init")):
+            continue
+        found, bad = step("activate", enter)
+        if bad:
+            continue
+        if found is None:
+            R.inconc("%s: could not enter target kind %s for the operation workload" % (driver, kind))
+            continue
+        role_, fkind, data, tmo = kind_info(kind)
+        sim.mark()
+        ref, bad = step("exchange", lambda: clf.exchange(bytearray(data) if data is not None else None, tmo))
+        if bad:
+            continue
+        cmds = [c for (_, c, _) in sim.cmdlog]
+        n = sim.since_mark()
+        rf = [i + 1 for i, c in enumerate(cmds) if c in S.RF_WAIT_CMDS]
+        k = rf[-1] if rf else n
+        # the chip acknowledges the RF command and then stays silent: time-out inside Chipset.command -> cancel ACK
+        sim.script = {n + k: ["fault", "etimedout" if sim.link == "ccid" else "ack-silence"]}
+        acks0 = sim.frames_ok["ack"]
+        _, bad = step("silent-exchange", lambda: clf.exchange(bytearray(data) if data is not None else None, tmo))
+        sim.script = {}
+        if bad:
+            continue
+        if sim.link != "ccid":
+            R.count("%s_op_cancel_acks" % driver, sim.frames_ok["ack"] - acks0)
+        _, bad = step("exchange-again", lambda: clf.exchange(bytearray(data) if data is not None else None, tmo))
+        if bad:
+            continue
+        _, bad = step("close", clf.close)
+        if bad:
+            continue
+        R.count("%s_op_kinds" % driver)
+        R.count("%s_op_frames_validated" % driver, sum(sim.frames_ok.values()))
+        R.count("%s_op_acks_validated" % driver, sim.aborts)
+        if sim.link != "ccid":
+            R.count("%s_sim_accepted_ack" % driver, sim.frames_ok["ack"])
+        R.count("%s_op_frames_extended" % driver, sim.frames_ok["extended"])
+        for what, cnt in sim.apdu_seen.items():
+            R.count("%s_op_reader_apdu_%s_validated" % (driver, what), cnt)
+        R.seen("pn53x_op_stages", "%s/%s: %s" % (driver, kind, " ".join(steps)))
+
+
 def plan_c14(tier):
     descs = []
     groups = [["pn531", "arygonA"], ["pn532", "arygonB"], ["pn533", "pn532rt"], ["rcs956"], ["acr122"]]
@@ -1743,6 +2365,7 @@ def plan_c14(tier):
         descs.append({"part": "selres", "drivers": DRIVERS[0::2], "timeout": 300})
         descs.append({"part": "selres", "drivers": DRIVERS[1::2], "timeout": 300})
         descs.append({"part": "retx", "drivers": DRIVERS, "timeout": 300})
+        descs.append({"part": "operation", "drivers": DRIVERS, "timeout": 300})
     else:
         for d in DRIVERS:
             descs.append({"part": "driver", "drivers": [d], "reps": 2, "timeout": 1500})
@@ -1754,6 +2377,7 @@ def plan_c14(tier):
         for d in DRIVERS:
             descs.append({"part": "selres", "drivers": [d], "timeout": 1500})
         descs.append({"part": "retx", "drivers": DRIVERS, "timeout": 1500})
+        descs.append({"part": "operation", "drivers": DRIVERS, "timeout": 1500})
     return descs
 
 
@@ -1776,6 +2400,9 @@ def run_c14(desc, R, rng):
     elif desc["part"] == "retx":
         for d in desc["drivers"]:
             run_retx(R, d, tier, rng)
+    elif desc["part"] == "operation":
+        for d in desc["drivers"]:
+            run_operation(R, d, tier, rng)
     R.exhaustive = False
 
 
@@ -1800,3 +2427,5 @@ def replay_c14(case, R):
         safe_make(R, case["driver"], "c14")
     elif part == "retx":
         run_retx(R, case["driver"], "quick", rng, only=case)
+    elif part == "operation":
+        run_operation(R, case["driver"], "quick", rng, only=case)
